@@ -48,7 +48,7 @@ type Config struct {
 
 func hasTimingViolation(r *Record) bool {
 	for _, v := range r.Violations {
-		if v.Symptom == SymWaitExceedsMax {
+		if timingSymptom(v.Symptom) {
 			return true
 		}
 	}
@@ -91,7 +91,7 @@ func childMain(cfg Config) {
 			if !hasTimingViolation(again) {
 				var keep []Violation
 				for _, v := range rec.Violations {
-					if v.Symptom != SymWaitExceedsMax {
+					if !timingSymptom(v.Symptom) {
 						keep = append(keep, v)
 					}
 				}
